@@ -102,8 +102,39 @@ func (s *vStream) Header() (metadata.MD, error) { s.note(4); return nil, nil }
 func (s *vStream) Trailer() metadata.MD         { s.note(5); return nil }
 func (s *vStream) CloseSend() error             { s.note(3); s.closed = true; return nil }
 func (s *vStream) Context() context.Context     { s.note(6); return &verifCtx{} }
-func (s *vStream) SendMsg(m interface{}) error  { s.note(1); s.sent++; s.lastSent = m; return s.sendErr }
-func (s *vStream) RecvMsg(m interface{}) error  { s.note(2); s.recvd++; s.lastRecv = m; return nil }
+func (s *vStream) SendMsg(m interface{}) error {
+	s.note(1)
+	s.sent++
+	s.lastSent = m
+	if vConcArmed == 2 {
+		// the receiver goroutine runs while this send is inside the underlying stream
+		vConcArmed = 0
+		vConcErr = vConcCS.RecvMsg(vConcMsg)
+		vConcRan = true
+	}
+	return s.sendErr
+}
+func (s *vStream) RecvMsg(m interface{}) error {
+	s.note(2)
+	s.recvd++
+	s.lastRecv = m
+	if vConcArmed == 1 {
+		// the sender goroutine runs while this receive is blocked inside the underlying stream
+		vConcArmed = 0
+		vConcErr = vConcCS.SendMsg(vConcMsg)
+		vConcRan = true
+	}
+	return nil
+}
+
+// sender and receiver goroutine of one stream (the concurrency gRPC allows on a ClientStream)
+var (
+	vConcArmed int
+	vConcCS    grpc.ClientStream
+	vConcMsg   *verifMsg
+	vConcErr   error
+	vConcRan   bool
+)
 
 var (
 	vStreamerCalls int
@@ -269,4 +300,42 @@ func VerifH_streamwait() {
 	}
 	verifAssert(vStreamerCalls == 1, "C12: stream not created exactly once")
 	verifObserve("blocked", uint64(vWaitBlocked))
+}
+
+// Once the stream exists, a send issued while a receive is blocked inside the underlying stream
+// (and vice versa) reaches the underlying stream: the wrapper holds nothing across the delegated
+// call that the other direction needs.  The other goroutine's real call runs inline at the point
+// where the first one is inside the underlying stream.
+func VerifH_streamconc() {
+	vReset()
+	parent := vMkParent()
+	csi, _ := GCPStreamClientInterceptor(parent, &grpc.StreamDesc{}, &grpc.ClientConn{}, "/m", vStreamer)
+	first := &verifMsg{}
+	vStreamerFails = false
+	serr := csi.SendMsg(first)
+	verifAssume(serr == nil && !vLastFailed && vUnder != nil) // the stream exists
+	dir := verifCase("dir")
+	verifAssume(dir == 1 || dir == 2)
+	outer, inner := &verifMsg{}, &verifMsg{}
+	vConcCS, vConcMsg, vConcRan, vConcErr = csi, inner, false, nil
+	sent0, recvd0 := vUnder.sent, vUnder.recvd
+	vConcArmed = dir
+	var oerr error
+	if dir == 1 {
+		oerr = csi.RecvMsg(outer)
+	} else {
+		oerr = csi.SendMsg(outer)
+	}
+	vConcArmed = 0
+	verifReach("both returned")
+	verifAssert(verifLocksFree(), "C12: stream mutex left held")
+	verifAssert(vConcRan && oerr == nil && vConcErr == nil, "C12: concurrent send/receive on an existing stream failed or did not run")
+	verifAssert(vUnder.sent == sent0+1 && vUnder.recvd == recvd0+1, "C12: a send/receive issued while the other direction is inside the underlying stream did not reach the underlying stream")
+	if dir == 1 {
+		verifAssert(vUnder.lastSent == interface{}(inner) && vUnder.lastRecv == interface{}(outer), "C12: message changed on the way to the underlying stream")
+	} else {
+		verifAssert(vUnder.lastSent == interface{}(outer) && vUnder.lastRecv == interface{}(inner), "C12: message changed on the way to the underlying stream")
+	}
+	verifAssert(vStreamerCalls == 1, "C12: stream not created exactly once")
+	verifObserve("sent", uint64(vUnder.sent))
 }
